@@ -39,26 +39,33 @@ Bits(k) == CASE k \in {"i8", "u8"} -> 8 [] k \in {"i16", "u16"} -> 16 [] k \in {
 LeafKinds == NumKinds \cup {"bool", "str", "iface", "num", "raw", "bytes", "uj", "ut"}
 
 \* ---- number literal classes (concrete literal owned by the harness) ----
-\*  z 0 | nz -0 | p7 7 | p9 9 (only as a prior value) | p12 12 | n3 -3 | n200 -200 | p200 200 | p300 300 | p70000 70000
+\*  z 0 | nz -0 | p7 7 | p9 9 (only as a prior value) | p12 12 | n3 -3 | n200 -200 | p200 200 | p300 300 | p40000 40000 | p70000 70000
 \*  p3e9 3000000000 | p5e9 5000000000 | p2_63 2^63 | n2_63 -2^63 | p2_64 2^64 | f1_5 1.5 | f1_0 1.0 | e1e2 1e2
 \*  f1e39 1e39 | big 1e400
-IntLits == {"z", "nz", "p7", "p12", "n3", "n200", "p200", "p300", "p70000", "p3e9", "p5e9", "p2_63", "n2_63", "p2_64"}
+IntLits == {"z", "nz", "p7", "p12", "n3", "n200", "p200", "p300", "p40000", "p70000", "p3e9", "p5e9", "p2_63", "n2_63", "p2_64"}
 NumClasses == IntLits \cup {"f1_5", "f1_0", "e1e2", "f1e39", "big"}
 \* smallest signed / unsigned width that holds the integer literal (99 = none)
-SBits(c) == CASE c \in {"z", "nz", "p7", "p12", "n3"} -> 8 [] c \in {"n200", "p200", "p300"} -> 16 [] c = "p70000" -> 32
+SBits(c) == CASE c \in {"z", "nz", "p7", "p12", "n3"} -> 8 [] c \in {"n200", "p200", "p300"} -> 16 [] c \in {"p40000", "p70000"} -> 32
               [] c \in {"p3e9", "p5e9", "n2_63"} -> 64 [] OTHER -> 99
-UBits(c) == CASE c \in {"z", "p7", "p12", "p200"} -> 8 [] c = "p300" -> 16 [] c \in {"p70000", "p3e9"} -> 32
+UBits(c) == CASE c \in {"z", "p7", "p12", "p200"} -> 8 [] c \in {"p300", "p40000"} -> 16 [] c \in {"p70000", "p3e9"} -> 32
               [] c \in {"p5e9", "p2_63"} -> 64 [] OTHER -> 99
 FloatOk(c, k) == c # "big" /\ (k = "f32" => c # "f1e39")
 
 \* ---- string literal classes ----
 \*  sx "x" | se "" | s12 "12" | sb64 "YWI=" | sesc "a\né\"" | snull "null" | strue "true" | sq "\"x\"" | ssur "\ud800"
 \*  sctl (a raw control character inside: not JSON) | sbad (an invalid UTF-8 byte inside)
-StrClasses == {"sx", "se", "s12", "sb64", "sesc", "snull", "strue", "sq", "ssur", "sctl", "sbad"}
+\*  q7 "7", q200 "200", ... : a string whose content is the number literal of that class (for `,string` fields and json.Number)
+QClasses == {"q7", "q200", "q300", "q40000", "q70000", "q3e9", "q5e9", "qn3", "q1_5", "q2_63"}
+StrClasses == {"sx", "se", "s12", "sb64", "sesc", "snull", "strue", "sq", "ssur", "sctl", "sbad"} \cup QClasses
 B64Ok == {"se", "sb64", "snull", "strue"}
 \* the literal that the content of a string class spells (for `,string` fields), or "none"
 Inner(c) == CASE c = "s12" -> [j |-> "n", c |-> "p12"] [] c = "snull" -> [j |-> "null"] [] c = "strue" -> [j |-> "t"]
-              [] c = "sq" -> [j |-> "s", c |-> "sx"] [] OTHER -> [j |-> "none"]
+              [] c = "sq" -> [j |-> "s", c |-> "sx"]
+              [] c = "q7" -> [j |-> "n", c |-> "p7"] [] c = "q200" -> [j |-> "n", c |-> "p200"] [] c = "q300" -> [j |-> "n", c |-> "p300"]
+              [] c = "q40000" -> [j |-> "n", c |-> "p40000"] [] c = "q70000" -> [j |-> "n", c |-> "p70000"]
+              [] c = "q3e9" -> [j |-> "n", c |-> "p3e9"] [] c = "q5e9" -> [j |-> "n", c |-> "p5e9"] [] c = "qn3" -> [j |-> "n", c |-> "n3"]
+              [] c = "q1_5" -> [j |-> "n", c |-> "f1_5"] [] c = "q2_63" -> [j |-> "n", c |-> "p2_63"]
+              [] OTHER -> [j |-> "none"]
 
 Opts == [num : {"none", "usenumber", "useint64"}, cs : BOOLEAN, duf : BOOLEAN, vs : BOOLEAN]
 
@@ -217,7 +224,7 @@ Dec(T, J, old, o) ==
   ELSE IF T.k = "str" THEN (IF J.j = "s" THEN StrVal(J.c, o) ELSE Mismatch(J))
   ELSE IF T.k = "num" THEN
        (IF J.j = "n" THEN Ok([g |-> "n", as |-> "num", c |-> J.c])
-        ELSE IF J.j = "s" THEN (IF J.c = "s12" THEN Ok([g |-> "n", as |-> "num", c |-> "s12"]) ELSE Hard)
+        ELSE IF J.j = "s" THEN (IF J.c = "s12" \/ J.c \in QClasses THEN Ok([g |-> "n", as |-> "num", c |-> J.c]) ELSE Hard)
         ELSE Mismatch(J))
   ELSE IF T.k \in IntKinds THEN
        (IF J.j = "n" THEN (IF J.c \in IntLits /\ SBits(J.c) <= Bits(T.k) THEN Ok([g |-> "n", as |-> T.k, c |-> J.c]) ELSE Hard) ELSE Mismatch(J))
